@@ -37,8 +37,14 @@ pub fn canon(v: &PropertyValue) -> String {
 }
 
 /// A property value compared / ordered by its canonical rendering (type tag + bits).
-#[derive(Clone, Debug)]
+#[derive(Clone)]
 pub struct PV(pub PropertyValue, pub String);
+impl std::fmt::Debug for PV {
+    fn fmt(&self, f: &mut std::fmt::Formatter<'_>) -> std::fmt::Result {
+        // canonical text only (the Debug text of a Map value depends on hash order)
+        f.write_str(&self.1)
+    }
+}
 impl PV {
     pub fn new(v: PropertyValue) -> PV {
         let c = canon(&v);
